@@ -1002,6 +1002,23 @@ def section_maildir_faults(ctx) -> None:
                                                'monitor_failed_too': had_failure})
 
 
+def section_stale_selection(ctx) -> None:
+    """dict: one command under a selection that another session has made stale (deleted,
+    renamed away, deleted and re-created, renamed and back); monitors only (harness/c14_stale.py)."""
+    from .. import c14_stale as CS
+    plan = CS.plan(ctx.rng, quick=(ctx.scale(0, 1) == 0))
+    hist = {}
+    for i, (ro, stale, cname) in enumerate(plan):
+        res = arun(CS.scenario(ro, stale, cname, 70000 + 100 * i), timeout=120)
+        ctx.count(('stale_selection', stale, cname, res['status']),
+                  nontrivial=stale != 'none')
+        hist[res['status']] = hist.get(res['status'], 0) + 1
+        for clause, what, obs in CS.judge(res):
+            ctx.failure(clause, '[stale selection] ' + what,
+                        {'backend': 'dict', 'family': 'stale_selection', **res}, obs)
+    ctx.extra['stale_selection'] = {'scenarios': len(plan), 'status_histogram': hist}
+
+
 def x_fs0_differs(job: dict, runs: list) -> bool:
     """The start state of every faulted run is that of the fault-free run
     (names are deterministic): the model is evaluated on the latter."""
@@ -1017,7 +1034,9 @@ def run(ctx) -> None:
                 'not the unparseable line.  maildir: histories centred on MOVE / COPY / '
                 'multi-message APPEND, every filesystem-operation boundary as the kill point; '
                 'maildir faults: every command of the alphabet, every filesystem operation of it '
-                'raising ENOSPC / EIO / EACCES in turn (lock-file removals excepted)')
+                'raising ENOSPC / EIO / EACCES in turn (lock-file removals excepted); '
+                'stale selection (dict): one command of 15 under a selection that a second '
+                'session deleted / renamed away / re-created / renamed back, 6 x 15 scenarios')
     ctx.assumptions += [
         'a dict-backend command body does not suspend under asyncio (measured on every run), so '
         'cancellation and disconnect land between commands; faults inside a command are '
@@ -1038,6 +1057,7 @@ def run(ctx) -> None:
                       ('drops', lambda c: arun(drops_and_cancels(c), timeout=300)),
                       ('fault_sweep', lambda c: arun(faults_inside_storage_calls(c), timeout=400)),
                       ('move_window', move_window_calls),
+                      ('stale_selection', section_stale_selection),
                       ('maildir', section_maildir),
                       ('maildir_faults', section_maildir_faults)):
         t0 = time.time()
